@@ -552,6 +552,8 @@ func vfC06ErrClass(err error) string {
 		return "window"
 	case errors.Is(err, ErrBadDecryption):
 		return "decrypt"
+	case strings.Contains(err.Error(), "low order point") || strings.Contains(err.Error(), "bad X25519 remote ECDH input"):
+		return "dh"
 	case strings.Contains(err.Error(), "failed to unmarshal"):
 		return "hello"
 	case strings.Contains(err.Error(), "failed to parse first HTTP GET"):
